@@ -9,7 +9,7 @@ import vlib
 TEXT = {
     "C01": ("Theorems: over every history, configuration and choice list a lookup of the engine model returns the value of the latest store of exactly that key (C01_latest_value); the generated wrapper returns f(key) for every deterministic body, whatever limits, ttl, memory, predicates, invalidations occur (C01w_returns_function_value). Tied to the code by step-wise correspondence with the three real engines and with 230 macro-generated functions (oracle: returned value = function's value; methods on two receivers).", "7 C01"),
     "C02": ("Theorem C02_key_injective: for every signature (receiver + arguments of nested built-in and derived-Debug types) equal keys imply equal argument tuples, for both key generators (typed parser round-trip over a model of Rust's Debug). Tied to the code by comparing the real key strings of 48 signatures with the model code point by code point, collision tests on near-miss pairs, and a macro part with pattern parameters.", "7 C02"),
-    "C03": ("Theorem C03_computed_once: without limit/ttl/memory/predicates the body runs iff the key did not occur before and later calls return the first result; concurrency: C18's invariants. Tied to the code by execution counters on generated histories over three threads, bodies with early return, and overlapping real-time lookups of a stored key (both must be served).", "7 C03"),
+    "C03": ("Theorem C03_computed_once: without limit/ttl/memory/predicates the body runs iff the key did not occur before and later calls return the first result; concurrency: C03_stored_stays_stored / C03_after_a_store_every_lookup_hits (sync, critical-section model) and C03_async_store_seen_by_lock_free_readers (async, between the map operations of a store: a stored key that stays stored is never absent), plus C18's invariants. Tied to the code by execution counters on generated histories over three threads, bodies with early return, and overlapping real-time lookups of a stored key (both must be served).", "7 C03"),
     "C04": ("Theorem C04_entry_limit: for limit L >= 1 every reachable state of the engine model holds at most L entries, an overflowing store removes exactly one key, others none (invariant: queue == keys, NoDup, |store| <= L). Tied to the code by step-wise correspondence on key sets and queue (engines) and an independent limit oracle on macro-generated functions with invalidations in the history.", "7 C04"),
     "C05": ("Theorems C05_memory_limit (total <= M after every insert_with_memory; oversize not cached and displaces nothing; victims only while it does not fit) and C05_memest_estimate_is_footprint (estimate = inline size + owned heap for any layout). Tied to the code by correspondence on keys and sizes and a differential run of the real estimate_memory() on 49 types in debug and release.", "7 C05"),
     "C06": ("Theorems C06_ttl (age >= ttl: not served, purged from store and queue, one miss; younger: served) and the whole-second clock lemmas for the async cache. Tied to the code under virtual time (re-stamped births, the engines' own expiry code runs), real-time async cases at chosen sub-second phases, and a ttl oracle at macro level.", "7 C06"),
@@ -21,7 +21,7 @@ TEXT = {
     "C12": ("Theorems C12_group_invalidation (matching caches emptied in store and queue, others untouched, count exact, three distinct tables), C12_invalidate_cache_by_name, C12_cleared_cache_recomputes. Tied to the code on overlapping labels, chains, self-references and repeated invalidations.", "7 C12"),
     "C13": ("Theorems C13_invalidate_with_is_a_filter, C13_invalidate_with_touches_one_cache, C13_removed_exactly_the_matching_entries, C13_invalidate_all_with. Tied to the code by frame oracles over every cache instance (store and queue of the target = filter, everything else unchanged).", "7 C13"),
     "C14": ("Theorems C14_call_touches_one_instance, C14_call_is_the_instances_own_call, C14_thread_scope_registers_nothing (thread scope = one world entry per (function, thread)); C14_fresh_entry_served_across_lookups and C14_purge_removes_only_expired (concurrent model: lookups, hit bumps and expiry purges by any threads never remove or alter an unexpired entry). Tied to the code on four real threads (isolation oracle) and by overlapping lookups for the sharing clause.", "7 C14"),
-    "C15": ("Theorems C15_each_lookup_counts_once, C15_total, C15_stats_by_name, C15_reset_touches_one_cache. Tied to the code by counters after every operation, stats_registry::get by name, free-running threads with exact lookup counts, and the statistics at the quiescent end of every two- and three-thread schedule (hits + misses = completed calls).", "7 C15"),
+    "C15": ("Theorems C15_each_lookup_counts_once, C15_total, C15_stats_by_name, C15_reset_touches_one_cache, and C15_every_lookup_booked_once_under_concurrency (lookup protocol with its two phases and the later recency section, arbitrary environment in between: hits + misses = lookups at quiescence). Tied to the code by counters after every operation, stats_registry::get by name, free-running threads with exact lookup counts, and the statistics at the quiescent end of every two- and three-thread schedule (hits + misses = completed calls).", "7 C15"),
     "C16": ("Theorems: every thread-local code path respects the RefCell discipline (and the unrepaired path is refuted), the evict-until-it-fits loop reaches its own exit, the random index is in range. Tied to the code by catch_unwind around every operation over the configuration product at engine and macro level.", "7 C16"),
     "C17": ("Theorems C17_lock_programs_respect_one_order, C17_no_deadlock and C17_no_deadlock_for_ordered_traces: locks acquired in strictly increasing rank, hence some thread can always move, for any threads, traces and schedules. Tied to the code by checking the theorem's hypothesis (trace_ordered, extracted) on 1 500 recorded lock traces, and by two- and three-thread schedules on the real code with deadlock detection and a watchdog for calls that never return.", "7 C17"),
     "C18": ("Theorems C18_quiescent_consistent and C18_tracked_or_pending about an abstract transition system of the sync cache at critical-section granularity, C18_async_consistent_always / _values / _memory about the async cache as interleaved atomic sections (invariants in EVERY state), and C18_seq_run_is_conc_reachable / C18_seq_async_step_is_arun: both concurrent models contain the sequential model that is compared step by step with the real engines. Tied to the code by invariants observed at quiescence AND between critical sections over enumerated schedules, overlapping lookups and stress runs.", "7 C18"),
